@@ -10,8 +10,9 @@ received (`cnonce`, arbitrary at start: a reconnecting client retains its old no
 * answers every response it receives with exactly one ACK or NACK echoing that response's nonce
   and carrying its current names.
 The server handles the oldest undelivered request with `shouldRespond`; when that says "respond"
-it sends a response with some non-empty nonce (`send`), which travels to the client.  The server may
-also push spontaneously, and other types' requests may mark this type `AlwaysRespond` (warming).
+it generates a response; either that goes out with some non-empty nonce (`send`) and travels to the client, or
+nothing goes out (the generator has nothing to send for the request, or the send fails: `deliver = false`).  The
+server may also push spontaneously, and other types' requests may mark this type `AlwaysRespond` (warming).
 Nonces are arbitrary non-empty strings: uniqueness is *not* assumed.
 -/
 namespace IstioModel.C04
@@ -28,14 +29,17 @@ structure Sys where
 inductive Step
   | clientChange (names : List String)
   | clientRecv (nack : Option String)
-  | serverRecv (n : String)
+  /-- The server handles the oldest request; when it decides to answer, `deliver = false` is the case in which
+      nothing goes out: the generator has nothing to send (`pushXds` with `res == nil`) or the send fails. -/
+  | serverRecv (n : String) (deliver : Bool)
   | serverPush (n : String)
   | envAlways
 
 def clientMsg (t : Ty) (y : Sys) (err : Option String) : Req :=
   { ty := t, names := y.cnames, nonce := y.cnonce, err := err }
 
-def step (t : Ty) (y : Sys) : Step → Sys
+/-- One step of the closed loop; `f` selects the repaired / unrepaired `ShouldRespond`. -/
+def stepR (f : Repairs) (t : Ty) (y : Sys) : Step → Sys
   | .clientChange names =>
     let y1 := { y with cnames := names }
     { y1 with c2s := y.c2s ++ [clientMsg t y1 none], sentAny := true, lastNack := false }
@@ -45,14 +49,16 @@ def step (t : Ty) (y : Sys) : Step → Sys
     | n :: rest =>
       let y1 := { y with cnonce := n, s2c := rest }
       { y1 with c2s := y.c2s ++ [clientMsg t y1 nack], sentAny := true, lastNack := nack.isSome }
-  | .serverRecv n =>
+  | .serverRecv n deliver =>
     match y.c2s with
     | [] => y
     | m :: rest =>
       if n = "" then y else
-      match shouldRespond y.srv m with
+      match shouldRespondR f y.srv m with
       | .crash => y
-      | .out true _ s' => { y with srv := send s' t n true, c2s := rest, s2c := y.s2c ++ [n] }
+      | .out true _ s' =>
+        if deliver then { y with srv := send s' t n true, c2s := rest, s2c := y.s2c ++ [n] }
+        else { y with srv := s', c2s := rest }
       | .out false _ s' => { y with srv := s', c2s := rest }
   | .serverPush n =>
     if n = "" then y else
@@ -64,11 +70,16 @@ def step (t : Ty) (y : Sys) : Step → Sys
     | none => y
     | some w => { y with srv := y.srv.set t (some { w with always := true }) }
 
+/-- The code in /repo. -/
+def step (t : Ty) (y : Sys) (e : Step) : Sys := stepR {} t y e
+
 /-- A fresh stream: the server has no watch for `t`; the client may retain any nonce and names. -/
 def Sys.init (srv : State) (names : List String) (nonce : String) : Sys :=
   { srv := srv, cnames := names, cnonce := nonce, c2s := [], s2c := [], sentAny := false, lastNack := false }
 
 def run (t : Ty) (y : Sys) (steps : List Step) : Sys := steps.foldl (step t) y
+
+def runR (f : Repairs) (t : Ty) (y : Sys) (steps : List Step) : Sys := steps.foldl (stepR f t) y
 
 /-- The server's record for `t` equals what the client currently asks for. -/
 def recordMatches (s : State) (t : Ty) (names : List String) : Prop :=
